@@ -48,7 +48,8 @@ func VerifC09Step() {
 		return
 	}
 	now := vf.ClockReading(1)
-	vf.Reach("returned"); vf.Assume(vf.TimeLE(vf.Now(), t0.Add(callBudget)))
+	vf.Reach("returned")
+	vf.Assume(vf.TimeLE(vf.Now(), t0.Add(callBudget)))
 	keptCur := vf.EqBytes(out.Current.PublicKeyPkix, vf.Pkix(0))
 	keptNext := vf.EqBytes(out.Next.PublicKeyPkix, vf.Pkix(1))
 	promoted := vf.EqBytes(out.Current.PublicKeyPkix, vf.Pkix(1))
